@@ -336,7 +336,8 @@ class World(object):
         for p in pats[:3]:
             elements, _ = um.parse(p)
             path = ''.join('/' + (e[1] if e[0] == 'lit' else 'v') for e in elements) or '/'
-            out.append((self.rng.pick(['GET', 'GET', 'POST']), path))
+            # also methods that no route admits (405: the dispatcher collects the methods of every matching route) and HEAD
+            out.append((self.rng.pick(['GET', 'GET', 'POST', 'DELETE', 'PUT', 'HEAD']), path))
         out.append(('GET', self.rng.pick(['/a', '/a/b', '/zzz/q/r', '/b'])))
         return out
 
